@@ -3,15 +3,22 @@
   the final iterate data": every iterate that is current at a loop head carries *the* proximal-gradient
   data of its own point,
 
-    ∇ψ-field = ∇ψ(x),   (h(x̂), x̂, p) = prox-step of (γ, x, ∇ψ(x)),   ŷ-field = ŷ(x̂),
+    ∇ψ-field = ∇ψ(x),   (h(x̂), x̂, p) = prox-step of (γ, x, ∇ψ(x)),
     ∇ψ(x̂)-buffer = ∇ψ(x̂) whenever it is flagged valid,
+    ŷ-field = ŷ(x̂) — with lazy evaluation always; with `eager_gradient_eval` `ŷx̂` is only the workspace
+    of `eval_ψ_grad_ψ` until a loop head evaluates it, which it does whenever it is read (Ipopt
+    criterion, `eval_grad_L(x̂, ŷx̂)` for a recomputation of `∇ψ(x̂)`, results written back),
 
   through every branch of the line search (accelerated step, safeguarded step with the buffer swap,
   abandoned direction, step-size backtracking), after an interrupted line search, through the initial
-  step-size loop, with lazy and with eager gradient evaluation, for every direction provider and stop
-  schedule.  It needs the problem's oracles to be consistent with one gradient map (`GradLaw`:
-  `eval_ψ_grad_ψ`, `eval_grad_ψ`, `eval_grad_L(·, ŷ(·))` return the same `∇ψ`, and `eval_ψ_grad_ψ`
-  leaves `ŷ` in its workspace) — what the library's own implementations do.
+  step-size loop, with lazy and with eager gradient evaluation, for every direction provider and every
+  monotone stop flag.  It needs the problem's oracles to be consistent with one gradient map (`GradLaw`:
+  `eval_ψ_grad_ψ`, `eval_grad_ψ`, `eval_grad_L(·, ŷ(·))` return the same `∇ψ`).  Nothing is assumed about
+  what `eval_ψ_grad_ψ` leaves in its m-workspace (repaired finding `C06-panoc-eager-workspace-as-yhat`).
+
+  With eager evaluation, `take_safe_step` never has to recompute `∇ψ(x̂)`: the buffer of the current
+  iterate is invalid only after an interrupted line search, and then (monotone flag) the next loop head
+  exits.  That is where `StopMono` enters (`lastHead_doc`).
 
   The two flag facts the proof rests on are exactly the statements
     `take_safe_step`: `curr->have_grad_ψx̂ = next->have_grad_ψx̂ = false` after the buffer swap, and
@@ -28,124 +35,152 @@ set_option linter.unusedVariables false
 variable {α D : Type} [Field α] [LinearOrder α] [IsStrictOrderedRing α] [RealLike α]
 
 /-- The problem's oracles are consistent with one gradient map `∇ψ := eval_grad_ψ`:
-    `eval_ψ_grad_ψ` returns it, `eval_grad_L(x, ŷ(x))` returns it — and, **only with
-    `eager_gradient_eval`** (`eager = true`), `eval_ψ_grad_ψ` leaves `ŷ(x)` in its `work_m` argument.
-    The last clause is forced: eager PANOC passes `ŷx̂` as that workspace and later reads it (Ipopt
-    criterion, `eval_grad_L(x̂, ŷx̂)` after an interrupted line search, the progress callback), although the
-    interface only promises a scratch vector — for a problem that leaves something else there the real
-    solver reports an `ε` that is not the documented formula (open finding
-    `C06-panoc-eager-workspace-as-yhat`).  With lazy evaluation (the default) nothing is assumed about
-    the workspace. -/
-structure GradLaw (P : Problem α) (eager : Bool) : Prop where
+    `eval_ψ_grad_ψ` returns it, `eval_grad_L(x, ŷ(x))` returns it (`ŷ(x)` = what `eval_ψ` returns). -/
+structure GradLaw (P : Problem α) : Prop where
   pgp : ∀ x, (P.psiGradPsi x).2.1 = P.gradPsi x
   gradL : ∀ x, P.gradL x (P.psi x).2 = P.gradPsi x
-  work : eager = true → ∀ x, (P.psiGradPsi x).2.2 = (P.psi x).2
 
 /-- `∇ψ`-field of an iterate is `∇ψ` at its `x`. -/
 def GX (P : Problem α) (i : Iterate α) : Prop := i.gradPsi = P.gradPsi i.x
 
-/-- The iterate carries the proximal-gradient data of its own point. -/
-structure Doc (P : Problem α) (i : Iterate α) : Prop where
+/-- The iterate carries the proximal-gradient data of its own point (`eager`: the solver's
+    `eager_gradient_eval`; then `ŷx̂` is a workspace). -/
+structure Doc (P : Problem α) (eager : Bool) (i : Iterate α) : Prop where
   gx : GX P i
   prox : ProxCons P i
-  yh : i.yhat = (P.psi i.xhat).2
+  yh : eager = false → i.yhat = (P.psi i.xhat).2
   gh : i.haveGradHat = true → i.gradPsiHat = P.gradPsi i.xhat
 
-/-- After `eval_prox_grad_step; eval_ψx̂`: fresh prox data, fresh `ŷ`, and the `∇ψ(x̂)` buffer is valid
-    only if it was just evaluated (eager mode) — **the flag is reset by every new step**. -/
-theorem doc_evalStep {P : Problem α} (pr : Params α) (hL : GradLaw P pr.eagerGradientEval)
-    (i : Iterate α) (h : GX P i) :
-    Doc P (evalPsiHat P pr (evalProxGradStep P i)) := by
+/-- After `eval_prox_grad_step; eval_ψx̂`: fresh prox data, and the `∇ψ(x̂)` buffer is valid exactly if it
+    was just evaluated (eager mode) — **the flag is reset by every new step**. -/
+theorem doc_evalStep {P : Problem α} (pr : Params α) (hL : GradLaw P) (i : Iterate α) (h : GX P i) :
+    Doc P pr.eagerGradientEval (evalPsiHat P pr (evalProxGradStep P i)) ∧
+    (evalPsiHat P pr (evalProxGradStep P i)).haveGradHat = pr.eagerGradientEval := by
   unfold evalPsiHat evalProxGradStep
   by_cases he : pr.eagerGradientEval
   · simp only [he, if_true]
-    exact ⟨h, ⟨rfl, rfl, rfl⟩, hL.work he _, fun _ => hL.pgp _⟩
+    exact ⟨⟨h, ⟨rfl, rfl, rfl⟩, fun hc => by simp at hc, fun _ => hL.pgp _⟩, trivial⟩
   · simp only [he, Bool.false_eq_true, if_false]
-    exact ⟨h, ⟨rfl, rfl, rfl⟩, rfl, fun hc => by simp at hc⟩
+    exact ⟨⟨h, ⟨rfl, rfl, rfl⟩, fun _ => rfl, fun hc => by simp at hc⟩, trivial⟩
 
-theorem doc_evalGradPsiHat {P : Problem α} {e : Bool} (hL : GradLaw P e) (i : Iterate α) (h : Doc P i) :
-    Doc P (evalGradPsiHat P i) := by
+/-- `eval_grad_L(x̂, ŷx̂)` gives `∇ψ(x̂)` when `ŷx̂` holds `ŷ(x̂)`. -/
+theorem doc_evalGradPsiHat {P : Problem α} {e : Bool} (hL : GradLaw P) (i : Iterate α) (h : Doc P e i)
+    (hy : i.yhat = (P.psi i.xhat).2) : Doc P e (evalGradPsiHat P i) := by
   refine ⟨h.gx, h.prox, h.yh, fun _ => ?_⟩
   show P.gradL i.xhat i.yhat = P.gradPsi i.xhat
-  rw [h.yh]; exact hL.gradL _
+  rw [hy]; exact hL.gradL _
 
-theorem doc_of_core {P : Problem α} {a b : Iterate α} (hc : core a = core b) (hb : Doc P b)
-    (hgh : a.haveGradHat = true → a.gradPsiHat = P.gradPsi a.xhat) : Doc P a := by
-  refine ⟨?_, ?_, ?_, hgh⟩
-  · unfold GX; rw [gradPsi_of_core hc, x_of_core hc]; exact hb.gx
-  · unfold ProxCons
-    rw [hxhat_of_core hc, xhat_of_core hc, p_of_core hc, gamma_of_core hc, x_of_core hc,
-      gradPsi_of_core hc]
-    exact hb.prox
-  · rw [yhat_of_core hc, xhat_of_core hc]; exact hb.yh
-
-/-- `take_safe_step`: the candidate sits at `x̂ₖ` with `∇ψ(x̂ₖ)` taken from the buffer (evaluated first if
-    it was not valid); the buffers are swapped, so **both validity flags are cleared** — that is what
-    keeps `Doc` for the current iterate. -/
-theorem takeSafeStep_doc {P : Problem α} {e : Bool} (hL : GradLaw P e) (c nx : Iterate α) (t : Nat) (h : Doc P c) :
-    Doc P (takeSafeStep P c nx t).1 ∧ GX P (takeSafeStep P c nx t).2.1 := by
+/-- `take_safe_step`: the candidate sits at `x̂ₖ` with `∇ψ(x̂ₖ)` taken from the buffer (evaluated first,
+    with lazy evaluation, if it was not valid); the buffers are swapped, so **both validity flags are
+    cleared** — that is what keeps `Doc` for the current iterate. -/
+theorem takeSafeStep_doc {P : Problem α} {e : Bool} (hL : GradLaw P) (c nx : Iterate α) (t : Nat)
+    (h : Doc P e c) (hok : e = true → c.haveGradHat = true) :
+    Doc P e (takeSafeStep P c nx t).1 ∧ GX P (takeSafeStep P c nx t).2.1 := by
   unfold takeSafeStep
   by_cases hh : c.haveGradHat = true
   · simp only [hh, Bool.not_true, Bool.false_eq_true, if_false]
     exact ⟨⟨h.gx, h.prox, h.yh, fun hc => by simp at hc⟩, h.gh hh⟩
   · have hh' : c.haveGradHat = false := by simpa using hh
+    have he : e = false := by
+      cases e with
+      | false => rfl
+      | true => exact absurd (hok rfl) hh
     simp only [hh', Bool.not_false, if_true]
-    have hd := doc_evalGradPsiHat hL c h
+    have hd := doc_evalGradPsiHat hL c h (h.yh he)
     exact ⟨⟨hd.gx, hd.prox, hd.yh, fun hc => by simp at hc⟩, hd.gh rfl⟩
 
-theorem takeAcceleratedStep_gx {P : Problem α} {e : Bool} (hL : GradLaw P e) (c nx : Iterate α) (q : Vec α)
+theorem takeAcceleratedStep_gx {P : Problem α} (hL : GradLaw P) (c nx : Iterate α) (q : Vec α)
     (tau : α) : GX P (takeAcceleratedStep P c nx q tau) := by
   unfold takeAcceleratedStep evalPsiGradPsi GX
   exact hL.pgp _
 
 /-! ### Line search -/
 
-structure LSDoc (P : Problem α) (s : LS α D) : Prop where
-  curr : Doc P s.curr
+structure LSDoc (P : Problem α) (e : Bool) (s : LS α D) : Prop where
+  curr : Doc P e s.curr
   /-- a candidate that will not be recomputed has `∇ψ`-field `= ∇ψ(x)` -/
   next : s.tau = s.tauPrev → GX P s.next
+  /-- eager evaluation: the buffer of the current iterate is valid until the safeguarded step was taken -/
+  eh : e = true → s.curr.haveGradHat = true ∨ s.tauPrev = 0
+  /-- once the safeguarded step was taken `τ` stays `0` (it is taken at most once) -/
+  t0 : s.tauPrev = 0 → s.tau = 0
 
-theorem lsRecompute_doc {P : Problem α} {e : Bool} (hL : GradLaw P e) (q : Vec α) (s : LS α D) (h : LSDoc P s) :
-    Doc P (lsRecompute P q s).curr ∧ GX P (lsRecompute P q s).next := by
+theorem lsRecompute_doc {P : Problem α} {e : Bool} (hL : GradLaw P) (q : Vec α) (s : LS α D)
+    (h : LSDoc P e s) :
+    Doc P e (lsRecompute P q s).curr ∧ GX P (lsRecompute P q s).next ∧
+    (e = true → (lsRecompute P q s).curr.haveGradHat = true ∨ (lsRecompute P q s).tauPrev = 0) := by
   unfold lsRecompute
   split_ifs with h1 h2
-  · exact ⟨h.curr, takeAcceleratedStep_gx hL _ _ _ _⟩
-  · exact takeSafeStep_doc hL _ _ _ h.curr
-  · exact ⟨h.curr, h.next (by simpa using h1)⟩
+  · refine ⟨h.curr, takeAcceleratedStep_gx hL _ _ _ _, fun he => ?_⟩
+    rcases h.eh he with hh | hp
+    · exact Or.inl hh
+    · have : s.tau = 0 := h.t0 hp
+      exact absurd this (by simpa using h2)
+  · have hτ0 : s.tau = 0 := by simpa using h2
+    have hne : s.tau ≠ s.tauPrev := by simpa using h1
+    have hok : e = true → s.curr.haveGradHat = true := fun he => by
+      rcases h.eh he with hh | hp
+      · exact hh
+      · exact absurd (by rw [hτ0, hp]) hne
+    have := takeSafeStep_doc hL s.curr s.next s.tick h.curr hok
+    exact ⟨this.1, this.2, fun _ => Or.inr hτ0⟩
+  · exact ⟨h.curr, h.next (by simpa using h1), h.eh⟩
 
-theorem lsPass_doc {P : Problem α} (dir : Direction D α) (pr : Params α) (hL : GradLaw P pr.eagerGradientEval) (q : Vec α)
-    (tauInit : α) (s : LS α D) (h : LSDoc P s) :
+theorem lsPass_doc {P : Problem α} (dir : Direction D α) (pr : Params α) (hL : GradLaw P) (q : Vec α)
+    (tauInit : α) (s : LS α D) (h : LSDoc P pr.eagerGradientEval s) :
     match lsPass P dir pr q tauInit s with
-    | .done s' => Doc P s'.curr ∧ Doc P s'.next
-    | .again s' => LSDoc P s' := by
+    | .done s' => Doc P pr.eagerGradientEval s'.curr ∧ Doc P pr.eagerGradientEval s'.next ∧
+        s'.next.haveGradHat = pr.eagerGradientEval
+    | .again s' => LSDoc P pr.eagerGradientEval s' := by
   have h1 := lsRecompute_doc hL q s h
-  have hs2 : Doc P (evalPsiHat P pr (evalProxGradStep P (lsRecompute P q s).next)) :=
-    doc_evalStep pr hL _ h1.2
-  have hgx2 : ∀ (g L : α), GX P { evalPsiHat P pr (evalProxGradStep P (lsRecompute P q s).next) with
-      gamma := g, L := L } := fun _ _ => hs2.gx
+  have hprev := (lsRecompute_prev P q s).1
+  have hs2 := doc_evalStep pr hL _ h1.2.1
+  have ht0 : (lsRecompute P q s).tauPrev = 0 → (lsRecompute P q s).tau = 0 := fun hp => by
+    rw [← hprev]; exact hp
   unfold lsPass
   simp only []
   split_ifs with hfail hqub htq hls hmc
-  · exact ⟨h1.1, fun _ => h1.2⟩
-  · exact ⟨h1.1, fun _ => hs2.gx⟩
-  · exact ⟨h1.1, fun _ => hs2.gx⟩
+  · exact ⟨h1.1, fun _ => h1.2.1, h1.2.2, fun _ => rfl⟩
+  · refine ⟨h1.1, fun _ => hs2.1.gx, h1.2.2, fun hp => ?_⟩
+    have : (lsRecompute P q s).tau = 0 := ht0 hp
+    exact absurd htq (by rw [this]; exact lt_irrefl _)
+  · exact ⟨h1.1, fun _ => hs2.1.gx, h1.2.2, ht0⟩
   · have hsame := lsUpdateInCandidate_same dir
       { lsRecompute P q s with
         next := evalPsiHat P pr (evalProxGradStep P (lsRecompute P q s).next),
         tick := (lsRecompute P q s).tick + 2 }
-    exact ⟨by show Doc P _; rw [hsame.1]; exact h1.1,
-      fun _ => by show GX P _; rw [hsame.2.1]; exact hs2.gx⟩
+    have hupd := lsUpdateInCandidate_tau dir
+      { lsRecompute P q s with
+        next := evalPsiHat P pr (evalProxGradStep P (lsRecompute P q s).next),
+        tick := (lsRecompute P q s).tick + 2 }
+    refine ⟨by show Doc P _ _; rw [hsame.1]; exact h1.1,
+      fun _ => by show GX P _; rw [hsame.2.1]; exact hs2.1.gx, ?_, fun _ => rfl⟩
+    intro he
+    show _ ∨ (lsUpdateInCandidate dir _).tauPrev = 0
+    rw [hsame.1, hupd.2]; exact h1.2.2 he
   · have hsame := lsUpdateInCandidate_same dir
       { lsRecompute P q s with
         next := evalPsiHat P pr (evalProxGradStep P (lsRecompute P q s).next),
         tick := (lsRecompute P q s).tick + 2 }
-    exact ⟨by show Doc P _; rw [hsame.1]; exact h1.1,
-      fun _ => by show GX P _; rw [hsame.2.1]; exact hs2.gx⟩
+    have hupd := lsUpdateInCandidate_tau dir
+      { lsRecompute P q s with
+        next := evalPsiHat P pr (evalProxGradStep P (lsRecompute P q s).next),
+        tick := (lsRecompute P q s).tick + 2 }
+    have htpos : 0 < (lsRecompute P q s).tau := by
+      simp only [Bool.and_eq_true, decide_eq_true_eq] at hls; rw [hupd.1] at hls; exact hls.1
+    refine ⟨by show Doc P _ _; rw [hsame.1]; exact h1.1,
+      fun _ => by show GX P _; rw [hsame.2.1]; exact hs2.1.gx, ?_, fun hp => ?_⟩
+    · intro he
+      show _ ∨ (lsUpdateInCandidate dir _).tauPrev = 0
+      rw [hsame.1, hupd.2]; exact h1.2.2 he
+    · have hp' : (lsRecompute P q s).tauPrev = 0 := by rw [← hupd.2]; exact hp
+      have := ht0 hp'
+      exact absurd htpos (by rw [this]; exact lt_irrefl _)
   · have hsame := lsUpdateInCandidate_same dir
       { lsRecompute P q s with
         next := evalPsiHat P pr (evalProxGradStep P (lsRecompute P q s).next),
         tick := (lsRecompute P q s).tick + 2 }
-    exact ⟨by rw [hsame.1]; exact h1.1, by rw [hsame.2.1]; exact hs2⟩
+    exact ⟨by rw [hsame.1]; exact h1.1, by rw [hsame.2.1]; exact hs2.1, by rw [hsame.2.1]; exact hs2.2⟩
 
 theorem lsPass_fuelOut' (P : Problem α) (dir : Direction D α) (pr : Params α) (q : Vec α) (tauInit : α)
     (s : LS α D) : (lsPass P dir pr q tauInit s).st.fuelOut = s.fuelOut := by
@@ -158,14 +193,16 @@ theorem lsPass_fuelOut' (P : Problem α) (dir : Direction D α) (pr : Params α)
     | (rw [(lsUpdateInCandidate_same dir _).2.2]; exact h1)
 
 /-- The whole line search: the current iterate keeps its data (also when the search is interrupted); a
-    search left through `break` hands over a candidate with complete data. -/
-theorem lineSearch_doc {P : Problem α} (dir : Direction D α) (pr : Params α) (hL : GradLaw P pr.eagerGradientEval)
-    (stop : Nat → Bool) (q : Vec α) (tauInit : α) (fuel : Nat) (s : LS α D) (h : LSDoc P s)
-    (hf : s.fuelOut = false) :
-    Doc P (lineSearch P dir pr stop q tauInit fuel s).curr ∧
+    search left through `break` hands over a candidate with complete data whose `∇ψ(x̂)` buffer is valid
+    in eager mode. -/
+theorem lineSearch_doc {P : Problem α} (dir : Direction D α) (pr : Params α) (hL : GradLaw P)
+    (stop : Nat → Bool) (q : Vec α) (tauInit : α) (fuel : Nat) (s : LS α D)
+    (h : LSDoc P pr.eagerGradientEval s) (hf : s.fuelOut = false) :
+    Doc P pr.eagerGradientEval (lineSearch P dir pr stop q tauInit fuel s).curr ∧
     ((lineSearch P dir pr stop q tauInit fuel s).fuelOut = false →
       stop (lineSearch P dir pr stop q tauInit fuel s).tick = false →
-      Doc P (lineSearch P dir pr stop q tauInit fuel s).next) := by
+      Doc P pr.eagerGradientEval (lineSearch P dir pr stop q tauInit fuel s).next ∧
+      (lineSearch P dir pr stop q tauInit fuel s).next.haveGradHat = pr.eagerGradientEval) := by
   induction fuel generalizing s with
   | zero => simp [lineSearch, h.curr]
   | succ f ih =>
@@ -187,101 +224,169 @@ theorem lineSearch_doc {P : Problem α} (dir : Direction D α) (pr : Params α) 
 
 /-! ### One pass of the loop body, the head, the initialisation -/
 
-theorem iterLs_init_doc {P : Problem α} (dir : Direction D α) (pr : Params α) (s : St α D)
-    (h : Doc P s.curr) :
-    LSDoc P
+theorem iterLs_init_doc {P : Problem α} {e : Bool} (dir : Direction D α) (pr : Params α) (s : St α D)
+    (h : Doc P e s.curr) (hh : e = true → s.curr.haveGradHat = true) :
+    LSDoc P e
       ({ curr := s.curr, next := { s.next with gamma := s.curr.gamma, L := s.curr.L },
          d := (directionStage dir s).1, tick := (directionStage dir s).2.1,
          tau := (directionStage dir s).2.2.2.1, tauPrev := -1, updInLs := pr.updateDirInCandidate,
          updated := false, dirRejected := true, lsBacktracks := 0, stepsizeBacktracks := 0,
          lbfgsRejected := 0 } : LS α D) := by
-  refine ⟨h, fun he => ?_⟩
-  exfalso
-  have he' : (directionStage dir s).2.2.2.1 = (-1 : α) := he
-  rcases directionStage_tau dir s with h0 | h0 <;> rw [h0] at he' <;> norm_num at he'
+  refine ⟨h, fun he => ?_, fun he => Or.inl (hh he), fun hp => ?_⟩
+  · exfalso
+    have he' : (directionStage dir s).2.2.2.1 = (-1 : α) := he
+    rcases directionStage_tau dir s with h0 | h0 <;> rw [h0] at he' <;> norm_num at he'
+  · exfalso
+    have hp' : (-1 : α) = 0 := hp
+    norm_num at hp'
 
-theorem iterBody_doc {P : Problem α} (dir : Direction D α) (pr : Params α) (hL : GradLaw P pr.eagerGradientEval)
-    (stop : Nat → Bool) (s : St α D) (eps : α) (h : Doc P s.curr)
+/-- One pass of the loop body entered with a valid `∇ψ(x̂)` buffer in eager mode: the new current iterate
+    has complete data; in eager mode its buffer is valid unless the line search was interrupted. -/
+theorem iterBody_doc {P : Problem α} (dir : Direction D α) (pr : Params α) (hL : GradLaw P)
+    (stop : Nat → Bool) (s : St α D) (eps : α) (h : Doc P pr.eagerGradientEval s.curr)
+    (hh : pr.eagerGradientEval = true → s.curr.haveGradHat = true)
     (hf : (iterLs P dir pr stop s).fuelOut = false) :
-    Doc P (iterBody P dir pr stop s eps).curr := by
-  have hinit := iterLs_init_doc dir pr s h
+    Doc P pr.eagerGradientEval (iterBody P dir pr stop s eps).curr ∧
+    (pr.eagerGradientEval = true → (iterBody P dir pr stop s eps).curr.haveGradHat = true ∨
+      stop (iterBody P dir pr stop s eps).tick = true) := by
+  have hinit := iterLs_init_doc dir pr s h hh
   have hls := lineSearch_doc dir pr hL stop (directionStage dir s).2.2.1
     (directionStage dir s).2.2.2.1 pr.lsFuel _ hinit rfl
-  have hls' : Doc P (iterLs P dir pr stop s).curr ∧
+  have hls' : Doc P pr.eagerGradientEval (iterLs P dir pr stop s).curr ∧
       ((iterLs P dir pr stop s).fuelOut = false → stop (iterLs P dir pr stop s).tick = false →
-        Doc P (iterLs P dir pr stop s).next) := hls
+        Doc P pr.eagerGradientEval (iterLs P dir pr stop s).next ∧
+        (iterLs P dir pr stop s).next.haveGradHat = pr.eagerGradientEval) := hls
   by_cases hst : stop (iterLs P dir pr stop s).tick = true
-  · rw [(iterBody_interrupted P dir pr stop s eps hst).2.2.2.1]; exact hls'.1
+  · have hi := iterBody_interrupted P dir pr stop s eps hst
+    rw [hi.2.2.2.1, hi.2.2.2.2.2]
+    exact ⟨hls'.1, fun _ => Or.inr hst⟩
   · have hst' : stop (iterLs P dir pr stop s).tick = false := by simpa using hst
     rw [(iterBody_advanced P dir pr stop s eps hst').2.2.1]
-    exact hls'.2 hf hst'
+    have := hls'.2 hf hst'
+    exact ⟨this.1, fun he => Or.inl (by rw [this.2]; exact he)⟩
 
-/-- At a loop head the data are kept and, if the criterion reads `∇ψ(x̂)`, the buffer is valid (and
-    therefore holds `∇ψ(x̂)`) afterwards. -/
-theorem headStep_doc {P : Problem α} (pr : Params α) (hL : GradLaw P pr.eagerGradientEval) (stop : Nat → Bool) (oot : Bool)
-    (s : St α D) (h : Doc P s.curr) :
-    Doc P (headStep P pr stop oot s).1.curr ∧
-    (requiresGradHat pr.stopCrit = true → (headStep P pr stop oot s).1.curr.haveGradHat = true) := by
-  unfold headStep
-  simp only []
+/-- the head's `ŷ` evaluation keeps the data -/
+theorem headEvalYhat_doc {P : Problem α} (pr : Params α) (c : Iterate α)
+    (h : Doc P pr.eagerGradientEval c) : Doc P pr.eagerGradientEval (headEvalYhat P pr c).1 := by
+  unfold headEvalYhat
+  split_ifs
+  · exact ⟨h.gx, h.prox, fun _ => rfl, h.gh⟩
+  · exact h
+
+/-- `ŷx̂ = ŷ(x̂)` after the head's evaluation whenever it is read there (or evaluation is lazy). -/
+theorem headEvalYhat_yhat {P : Problem α} (pr : Params α) (c : Iterate α)
+    (h : Doc P pr.eagerGradientEval c) (hv : headYhatValid pr c = true) :
+    (headEvalYhat P pr c).1.yhat = (P.psi (headEvalYhat P pr c).1.xhat).2 := by
+  unfold headYhatValid at hv
+  unfold headEvalYhat
+  by_cases he : pr.eagerGradientEval = true
+  · have hr : headReadsYhat pr c = true := by simpa [he] using hv
+    simp only [he, hr, Bool.and_self, if_true]
+  · have he' : pr.eagerGradientEval = false := by simpa using he
+    simp only [he', Bool.false_and, Bool.false_eq_true, if_false]
+    exact h.yh he'
+
+/-- At a loop head: the data are kept; if the criterion reads `∇ψ(x̂)` the buffer is valid (and therefore
+    holds `∇ψ(x̂)`) afterwards; `ŷx̂ = ŷ(x̂)` whenever `have_ŷx̂` is set, which it is for the Ipopt
+    criterion; a valid buffer stays valid. -/
+theorem headStep_doc {P : Problem α} (pr : Params α) (hL : GradLaw P) (stop : Nat → Bool) (oot : Bool)
+    (s : St α D) (h : Doc P pr.eagerGradientEval s.curr) :
+    Doc P pr.eagerGradientEval (headStep P pr stop oot s).1.curr ∧
+    (requiresGradHat pr.stopCrit = true → (headStep P pr stop oot s).1.curr.haveGradHat = true) ∧
+    ((headStep P pr stop oot s).1.yhatValid = true →
+      (headStep P pr stop oot s).1.curr.yhat = (P.psi (headStep P pr stop oot s).1.curr.xhat).2) ∧
+    (pr.stopCrit = .Ipopt → (headStep P pr stop oot s).1.yhatValid = true) ∧
+    (s.curr.haveGradHat = true → (headStep P pr stop oot s).1.curr.haveGradHat = true) := by
+  have hc := headStep_curr P pr stop oot s
+  have hfy := headEvalYhat_fields P pr s.curr
+  have hdy := headEvalYhat_doc pr s.curr h
+  rw [hc.1, hc.2.1]
+  have hIp : pr.stopCrit = .Ipopt → headYhatValid pr s.curr = true := fun hi => by
+    unfold headYhatValid headReadsYhat; rw [hi]; simp
   by_cases hr : requiresGradHat pr.stopCrit = true
   · by_cases hh : s.curr.haveGradHat = true
-    · simp only [hr, hh, Bool.not_true, Bool.and_false, Bool.false_eq_true, if_false]
-      exact ⟨h, fun _ => by first | exact hh | trivial⟩
-    · have hh' : s.curr.haveGradHat = false := by simpa using hh
+    · have hh' : (headEvalYhat P pr s.curr).1.haveGradHat = true := by rw [hfy.2.2.2.2.2.2.1]; exact hh
+      simp only [hr, hh', Bool.not_true, Bool.and_false, Bool.false_eq_true, if_false]
+      exact ⟨hdy, fun _ => by first | exact hh' | trivial, fun hv => headEvalYhat_yhat pr s.curr h hv, hIp,
+        fun _ => by first | exact hh' | trivial⟩
+    · have hh0 : s.curr.haveGradHat = false := by simpa using hh
+      have hh' : (headEvalYhat P pr s.curr).1.haveGradHat = false := by rw [hfy.2.2.2.2.2.2.1]; exact hh0
       simp only [hr, hh', Bool.not_false, Bool.and_true, if_true]
-      exact ⟨doc_evalGradPsiHat hL _ h, fun _ => rfl⟩
+      have hv : headYhatValid pr s.curr = true := by
+        unfold headYhatValid headReadsYhat; rw [hr, hh0]; simp
+      have hy := headEvalYhat_yhat pr s.curr h hv
+      exact ⟨doc_evalGradPsiHat hL _ hdy hy, fun _ => rfl, fun _ => hy, hIp, fun _ => rfl⟩
   · have hr' : requiresGradHat pr.stopCrit = false := by simpa using hr
     simp only [hr', Bool.false_and, Bool.false_eq_true, if_false]
-    exact ⟨h, fun hc => absurd hc (by simp)⟩
+    exact ⟨hdy, fun hc' => absurd hc' (by simp), fun hv => headEvalYhat_yhat pr s.curr h hv, hIp,
+      fun hh => by rw [hfy.2.2.2.2.2.2.1]; exact hh⟩
 
-theorem initQub_doc {P : Problem α} (pr : Params α) (hL : GradLaw P pr.eagerGradientEval) (stop : Nat → Bool) (f : Nat)
-    (c : Iterate α) (t b : Nat) (h : Doc P c) : Doc P (initQub P pr stop f c t b).1 := by
+theorem initQub_doc {P : Problem α} (pr : Params α) (hL : GradLaw P) (stop : Nat → Bool) (f : Nat)
+    (c : Iterate α) (t b : Nat) (h : Doc P pr.eagerGradientEval c)
+    (hh : c.haveGradHat = pr.eagerGradientEval) :
+    Doc P pr.eagerGradientEval (initQub P pr stop f c t b).1 ∧
+    (initQub P pr stop f c t b).1.haveGradHat = pr.eagerGradientEval := by
   induction f generalizing c t b with
-  | zero => simpa [initQub] using h
+  | zero => exact ⟨h, hh⟩
   | succ f ih =>
     unfold initQub
     split_ifs
-    · exact h
-    · exact ih _ _ _ (doc_evalStep pr hL _ h.gx)
-    · exact h
+    · exact ⟨h, hh⟩
+    · have := doc_evalStep pr hL { c with gamma := c.gamma / 2, L := c.L * 2 } h.gx
+      exact ih _ _ _ this.1 this.2
+    · exact ⟨h, hh⟩
 
-theorem initState_doc {P : Problem α} (d0 : D) (pr : Params α) (hL : GradLaw P pr.eagerGradientEval) (stop : Nat → Bool)
+theorem initState_doc {P : Problem α} (d0 : D) (pr : Params α) (hL : GradLaw P) (stop : Nat → Bool)
     (x0 gV : Vec α) (gS iS : α) :
     match initState P d0 pr stop x0 gV gS iS with
     | .inl _ => True
-    | .inr s => Doc P s.curr := by
+    | .inr s => Doc P pr.eagerGradientEval s.curr ∧ s.curr.haveGradHat = pr.eagerGradientEval := by
   unfold initState
   simp only []
   split_ifs with h1 h2 h3
   · trivial
-  · apply initQub_doc _ hL
-    apply doc_evalStep _ hL
-    show (initialLipschitz P pr x0).2.2.1 = P.gradPsi x0
-    unfold initialLipschitz; simp only []; exact hL.pgp _
+  · refine initQub_doc pr hL stop _ _ _ _ (doc_evalStep pr hL _ ?_).1 (doc_evalStep pr hL _ ?_).2 <;>
+      (show (initialLipschitz P pr x0).2.2.1 = P.gradPsi x0
+       unfold initialLipschitz; simp only []; exact hL.pgp _)
   · trivial
-  · apply initQub_doc _ hL
-    apply doc_evalStep _ hL
-    show (P.psiGradPsi x0).2.1 = P.gradPsi x0
-    exact hL.pgp _
+  · refine initQub_doc pr hL stop _ _ _ _ (doc_evalStep pr hL _ ?_).1 (doc_evalStep pr hL _ ?_).2 <;>
+      (show (P.psiGradPsi x0).2.1 = P.gradPsi x0
+       exact hL.pgp _)
 
 /-! ### The last head of a solve -/
 
 /-- **Every loop head of a solve — in particular the last one — has a current iterate with complete
-    proximal-gradient data and `γ > 0`** (parameters satisfying `FuelOK`, any stop schedule). -/
-theorem lastHead_doc {P : Problem α} (dir : Direction D α) (pr : Params α) (hL : GradLaw P pr.eagerGradientEval)
-    (stop : Nat → Bool) (n K : Nat) (hF : FuelOK pr n K) (oot : Bool) (fuel : Nat) (s : St α D)
-    (h : Doc P s.curr) (hi : FInv pr s) :
-    Doc P (lastHead P dir pr stop oot fuel s).curr ∧ FInv pr (lastHead P dir pr stop oot fuel s) := by
+    proximal-gradient data and `γ > 0`** (parameters satisfying `FuelOK`, monotone stop flag). -/
+theorem lastHead_doc {P : Problem α} (dir : Direction D α) (pr : Params α) (hL : GradLaw P)
+    (stop : Nat → Bool) (hm : StopMono stop) (n K : Nat) (hF : FuelOK pr n K) (oot : Bool) (fuel : Nat)
+    (s : St α D) (h : Doc P pr.eagerGradientEval s.curr)
+    (hok : pr.eagerGradientEval = true → s.curr.haveGradHat = true ∨ stop s.tick = true)
+    (hi : FInv pr s) :
+    Doc P pr.eagerGradientEval (lastHead P dir pr stop oot fuel s).curr ∧
+    FInv pr (lastHead P dir pr stop oot fuel s) := by
   induction fuel generalizing s with
   | zero => exact ⟨h, hi⟩
   | succ f ih =>
     unfold lastHead
     split_ifs with hb
     · exact ⟨h, hi⟩
-    · have hh := headStep_finv P pr stop oot s hi
-      have hd := (headStep_doc pr hL stop oot s h).1
-      exact ih _ (iterBody_doc dir pr hL stop _ _ hd (iterLs_fuel P dir pr stop n K hF _ hh.lb))
-        (iterBody_finv P dir pr stop n K hF _ _ hh)
+    · have hbusy : (headStep P pr stop oot s).2.2 = .Busy := by simpa using hb
+      have hfd := headStep_fields P pr stop oot s
+      have hh := headStep_finv P pr stop oot s hi
+      have hd := headStep_doc pr hL stop oot s h
+      -- a Busy head has not seen the flag, so (monotone flag) it was not visible before either
+      have hns : stop (headStep P pr stop oot s).1.tick = false := by
+        have hs := (headStep_status P pr stop oot s).2
+        rw [hbusy] at hs
+        exact (Alpaqa.Props.C06.busy_only_if _ _ _ _ _ _ _ _ hs.symm).2.2.2.2.2
+      have hhave : pr.eagerGradientEval = true → (headStep P pr stop oot s).1.curr.haveGradHat = true := by
+        intro he
+        rcases hok he with hv | hst
+        · exact hd.2.2.2.2 hv
+        · have := hm _ _ hfd.2.2.2.2.2.1 hst
+          rw [hns] at this; exact absurd this (by decide)
+      have hls := iterLs_fuel P dir pr stop n K hF _ hh.lb
+      have hb' := iterBody_doc dir pr hL stop _ (headStep P pr stop oot s).2.1 hd.1 hhave hls
+      exact ih _ hb'.1 hb'.2 (iterBody_finv P dir pr stop n K hF _ _ hh)
 
 end Alpaqa.Panoc
